@@ -244,6 +244,8 @@ def run_task(task):
     try:
         ir = load_ir(task['ir'])
         ex = make_exec(ir, task['opts'], task['tier'])
+        if task.get('seeds') not in (None, [[]], []):
+            ex.xcheck_left = 0    # the second-solver cross-check samples the first task of each harness only
         bkey = (task['ir'], json.dumps(task['opts'], sort_keys=True), task['tier'])
         bc = _BASE_CACHE.get(bkey)
         if bc is None:
@@ -445,6 +447,8 @@ def main():
             g.ir_path = out
     # ---- tasks
     budget = a.budget or (1800 if tier == 0 else 6 * 3600)
+    if tier == 1 and 'VERIF_XCHECK' not in os.environ:
+        os.environ['VERIF_XCHECK'] = '12'   # workers inherit: the first task of each harness cross-checks its first 12 unsat obligations
     deadline = t_start + budget
     tasks = []
     for g in groups:
@@ -511,7 +515,8 @@ def main():
         pool.join()
     # ---- aggregate
     known = load_known()
-    tot = dict(paths=0, instrs=0, queries=0, solver_s=0.0, obligations=0, discharged=0, inconclusive=0, cuts=0)
+    tot = dict(paths=0, instrs=0, queries=0, solver_s=0.0, obligations=0, discharged=0, inconclusive=0, cuts=0,
+               x_queries=0, x_z3old_agree=0, x_z3old_unknown=0, x_cvc5_agree=0, x_cvc5_unknown=0, x_disagree=0)
     per_root = {}
     fn_set = {}
     violations = []
@@ -699,6 +704,10 @@ def main():
             engine='go/ssa -> JSON IR -> path-forking symbolic execution -> z3 %s (in-process); every SAT model replayed natively with go test -overlay' % z3ver(),
             translator_validation=dict(vectors_agreeing=validated, mismatches=len(val_mismatch)),
             known_findings_matched=known_lines,
+            second_solver_cross_check=dict(queries=tot['x_queries'], z3_4_8_12_agree=tot['x_z3old_agree'],
+                                           z3_4_8_12_unknown=tot['x_z3old_unknown'], cvc5_agree=tot['x_cvc5_agree'],
+                                           cvc5_unknown=tot['x_cvc5_unknown'], disagreements=tot['x_disagree'],
+                                           note='sampled unsat obligations (the first VERIF_XCHECK of each harness, thorough tier: 12) re-decided from their SMT-LIB2 text by /usr/bin/z3 4.8.12 and cvc5 1.0.3, 20 s each; an error line or timeout counts as unknown, a sat answer as a disagreement (exit 3)'),
             exhaustive=False,
         ),
         assumptions=[
